@@ -190,7 +190,8 @@ def decodeMsg (st : Store α) (s : Slice α) : Outcome (Msg α) :=
 
 /-! ## the normalised hash -/
 
-/-- `m.Info.ExtInMsgInfo.Dest.AddrStd.Anycast.Exists = false`: only a STANDARD destination loses its anycast -/
+/-- `dest := m.Info.ExtInMsgInfo.Dest; dest.AddrStd.Anycast.Exists = false` (a copy since the `fix:` commit; the
+shipped code cleared the flag in the message itself): only a STANDARD destination loses its anycast -/
 def normDest : MsgAddr → MsgAddr
   | .std _ wc addr => .std none wc addr
   | d => d
